@@ -178,6 +178,26 @@ def build_traces(path, tier, seed):
                 if sel.any():
                     add({"kind": "rel", "law": "geq", "clause": "SpectraMonotoneUnderRefine", "tol": enc(1e-5), "scale": enc(1.0),
                          "x": enc_seq(np.asarray(s0[q])[sel]), "y": enc_seq(np.asarray(s1[q])[sel])}, dict(m, law="SpectraMonotoneUnderRefine", r=r, q=q))
+    # one LARGE job (many periods x a long record, > 4 M cells): a sub-batch of its periods and a truncation of its record must
+    # reproduce the corresponding rows / prefixes (sampled cells are compared)
+    for j in range(1 if tier == "quick" else 3):
+        nper, nlong = [(1300, 3400), (2100, 2100), (300, 15000)][j]
+        dt = 0.01
+        a = rng.standard_normal(nlong)
+        periods = np.sort(rng.uniform(0.05, 4.0, size=nper))
+        xi = 0.05
+        full = sdof.nigam_and_jennings_response(a, dt, periods, xi)
+        rows_ = np.array([0, 1, nper // 2, nper - 2, nper - 1])
+        cols_ = np.unique(np.linspace(0, nlong - 1, 150).astype(int))
+        sub = sdof.nigam_and_jennings_response(a, dt, periods[rows_], xi)
+        ncut = nlong // 3
+        cut = sdof.nigam_and_jennings_response(a[:ncut], dt, periods, xi)
+        ccols = cols_[cols_ < ncut]
+        mm = {"n": nlong, "dt": dt, "xi": xi, "periods": nper, "cells": nper * nlong}
+        for s_ in range(3):
+            same("BatchIndependent", sub[s_][:, cols_], full[s_][rows_][:, cols_], dict(mm, series=s_, history="large job vs 5 of its periods"))
+            same("Causal", cut[s_][rows_][:, ccols], full[s_][rows_][:, ccols], dict(mm, series=s_, history="large job vs its first third"))
+        del full, sub, cut
     # the object path refines internally (min_dt_ratio): its spectra are never below the raw-sample spectra -- also
     # when the peak response falls on the very last instant (records short relative to the period, truncated records)
     for j in range(10 if tier == "quick" else 80):
